@@ -126,6 +126,7 @@ def setup(concepts, spec):
         hits = attach.attach(owner, p, Pred(p, cap))
         if p in ORDER and not any(h.endswith(ALIASES[p]) for h in hits):
             COL.count(f'alias_{ALIASES[p]}_not_found')
+        common.attach_overrides(concepts, om, [p] + ([ALIASES[p]] if p in ORDER else []), lambda p=p: Pred(p, cap))
     global POOL
     POOL = common.Pool(4)
 
